@@ -24,6 +24,11 @@ CHECKS = {
     text="Generated read matrices x pedigrees (single, unrelated, trio, quartet, three generations) x genotype/likelihood modes x recombination costs are solved by the real DP table and by an exponential brute force; cost, returned witness and per-column tie flags are compared. All matrices up to 3 reads x 3 columns are enumerated in the thorough tier. Bounded: <= 8 reads, <= 10 columns, <= 2 trios.",
     note="Trusted: the brute-force objective in vlib/oracles.py (definition of weighted PedMEC as implemented by the column cost definition in the paper/code comments); instances respect the constructor's documented preconditions (sorted reads, positions superset).",
     ref="DESIGN.md section 4, C01"),
+ "C08": dict(
+    technique="property-based testing (Hypothesis) of GenotypeDPTable against a plain forward-backward HMM summation; GT/GL/GQ arithmetic checked on written VCFs",
+    text="Generated read matrices x priors x pedigrees (single, trio, quartet) are run through the real scaled/checkpointed forward-backward table and through a brute-force HMM that sums over every bipartition, transmission value and allele assignment; entries must agree to 1e-9. Written VCFs are re-read with htslib and GT/GL/GQ relations recomputed. Bounded to <= 6 reads, <= 10 columns.",
+    note="Trusted: the HMM definition in vlib/oracles.py (emission constants, prior normalisation, Bernoulli transition) shared with the documented model; near-ties within 1e-5 are not judged.",
+    ref="DESIGN.md section 4, C08"),
 }
 
 NOT_YET = {}
